@@ -41,6 +41,13 @@ pub proof fn lemma_cur_nodes<'a, T: Queryable>(st: State<'a, T>)
 pub open spec fn nodes_rel<'a, T: Queryable>(st: State<'a, T>, r: State<'a, T>, out: Seq<Node<'a, T>>) -> bool {
     r.root == st.root && (is_nodes(st.data) ==> is_nodes(r.data) && nodes(r.data) == out)
 }
+pub open spec fn test_reading<'a, T: Queryable>(t: Test, got: Seq<Node<'a, T>>, cur: &'a T, root: &'a T) -> bool {
+    match t {
+        Test::RelQuery(v) => rfc_reading(got, v@, seq![cur_node(cur)], root),
+        Test::AbsQuery(q) => rfc_reading(got, q.segments@, seq![root_node(root)], root),
+        Test::Function(tf) => true,
+    }
+}
 // what a function argument state denotes: a value (ValueType conversion, RFC 9535 2.4.2) and a node count
 pub open spec fn data_value<'a, T: Queryable>(d: Data<'a, T>) -> Option<T> {
     match d {
@@ -116,15 +123,28 @@ pub open spec fn seg_exact<'a, T: Queryable>(s: Segment, input: Seq<Node<'a, T>>
 }
 pub open spec fn seg_rel<'a, T: Queryable>(s: Segment, st: State<'a, T>, r: State<'a, T>) -> bool {
     r.root == st.root && (is_nodes(st.data) ==> is_nodes(r.data))
-    // KNOWN FINDING (process_selectors.order): a multi-selector segment concatenates per selector instead of
-    // per input node, so the sequence claim excludes multi-selector segments that receive several input nodes
-    && (is_nodes(st.data) && seg_exact(s, nodes(st.data)) ==> nodes(r.data) == rfc_seg(s, nodes(st.data), st.root))
+    // exactly the evaluator's nodelist impl_seg (spec_multiset.rs): equal to the RFC nodelist as a multiset for every
+    // segment (lemma_seg_perm) and as a sequence whenever seg_exact holds (lemma_seg_exact) — a multi-selector
+    // segment that receives several input nodes is the KNOWN FINDING KF-C02-union-order
+    && (is_nodes(st.data) ==> nodes(r.data) == impl_seg(s, nodes(st.data), st.root))
     && (s matches Segment::Selector(sel) && (sel is Name || sel is Index) && one_or_none(st.data) ==> one_or_none(r.data))
 }
 pub open spec fn segs_rel<'a, T: Queryable>(segs: Seq<Segment>, st: State<'a, T>, r: State<'a, T>) -> bool {
     r.root == st.root && (is_nodes(st.data) ==> is_nodes(r.data))
-    && (is_nodes(st.data) && segs_exact(segs, nodes(st.data).len() <= 1) ==> nodes(r.data) == rfc_segs(segs, nodes(st.data), st.root))
+    && (is_nodes(st.data) ==> nodes(r.data) == impl_segs(segs, nodes(st.data), st.root))
     && (singular_segs(segs) && one_or_none(st.data) ==> one_or_none(r.data))
+}
+// the RFC reading of an evaluator nodelist: the same nodes with the same multiplicities, always; the same sequence
+// when no multi-selector segment receives several input nodes
+pub open spec fn rfc_reading<'a, T: Queryable>(got: Seq<Node<'a, T>>, segs: Seq<Segment>, input: Seq<Node<'a, T>>, root: &'a T) -> bool {
+    ms(got) == ms(rfc_segs(segs, input, root))
+    && (segs_exact(segs, input.len() <= 1) ==> got == rfc_segs(segs, input, root))
+}
+pub proof fn lemma_rfc_reading<'a, T: Queryable>(segs: Seq<Segment>, input: Seq<Node<'a, T>>, root: &'a T)
+    ensures rfc_reading(impl_segs(segs, input, root), segs, input, root),
+{
+    lemma_segs_perm(segs, input, root);
+    if segs_exact(segs, input.len() <= 1) { lemma_segs_exact(segs, input, root); }
 }
 // ---- entry points ----
 pub uninterp spec fn parsed(s: Seq<char>) -> Option<JpQuery>;
